@@ -93,6 +93,10 @@ pub(crate) struct InternalOpDetails {
   pub payload: InternalOpPayload,
 }
 
+/// `fd` recorded for a send whose connection has been closed while the kernel may still read its
+/// buffers: the entry (and with it the payload) lives on until the completion for it arrives.
+pub(crate) const ORPHANED_OP_FD: RawFd = -1;
+
 /// Internal op user_data IDs are offset by this constant so they never overlap with
 /// external (app-visible) op IDs, which are allocated from the range 1..INTERNAL_OP_BASE.
 const INTERNAL_OP_BASE: u64 = 1_000_000_000;
@@ -175,7 +179,29 @@ impl InternalOpTracker {
       .collect()
   }
 
+  /// Removes what is tracked for a closed `fd`. Sends that were submitted stay: closing the
+  /// descriptor does not end them, and the kernel reads their buffers until it posts their
+  /// completions. They are kept as orphans (`ORPHANED_OP_FD`) and reaped by those completions.
   pub fn remove_ops_for_fd(&mut self, fd_to_remove: RawFd) -> Vec<InternalOpDetails> {
+    let is_send = |t: InternalOpType| {
+      matches!(
+        t,
+        InternalOpType::Send
+          | InternalOpType::SendZeroCopy
+          | InternalOpType::SendRawVectored
+          | InternalOpType::SendZeroCopyLeased
+      )
+    };
+    for (_, v) in self.op_to_details.iter_mut() {
+      if v.fd == fd_to_remove && is_send(v.op_type) {
+        v.fd = ORPHANED_OP_FD;
+      }
+    }
+    for d in self.pending_notifications.values_mut() {
+      if d.fd == fd_to_remove && is_send(d.op_type) {
+        d.fd = ORPHANED_OP_FD;
+      }
+    }
     let slab_keys: Vec<usize> = self
       .op_to_details
       .iter()
